@@ -8,6 +8,7 @@
 // Bound: |sum - exact| <= 2 eps_T sum|v|, independent of N.
 #include "common.hpp"
 #include "engines.hpp"
+#include "mcmodel.hpp"
 
 #include "hep/mc.hpp"
 
@@ -85,7 +86,9 @@ static void judge_more(report& r, sums<T> const& s, std::function<T(sz)> const& 
     __float128 ex[5] = {0, 0, 0, 0, 0}, mg[5] = {0, 0, 0, 0, 0};
     for (sz k = 0; k != n; ++k)
     {
-        __float128 const v = value(k);
+        T const tv = value(k);
+        if (!std::isfinite(tv)) continue;          // a non-finite value is not a sampled value of any sum
+        __float128 const v = tv;
         ex[k % 3] += v; mg[k % 3] += v < 0 ? -v : v;
         ex[3 + k % 2] += v; mg[3 + k % 2] += v < 0 ? -v : v;
     }
@@ -209,6 +212,70 @@ static void part_b(report& r, bool thorough)
     }
 }
 
+// Sampled values f x w with weights that are no round numbers (an adapted VEGAS grid; channel densities): the
+// integrand records the exactly rounded product it is about to contribute, and the reported sum is compared
+// with the exact sum of these products.
+template <typename T>
+struct weighted_fn
+{
+    std::function<T(sz)> const* value;
+    sz* counter;
+    __float128* exact;
+    __float128* mag;
+    template <typename P> T note(P const& p) const
+    {
+        T const v = (*value)((*counter)++);
+        if (v != T())
+        {
+            T const prod = v * p.weight();
+            if (std::isfinite(prod)) { *exact += prod; *mag += prod < 0 ? -prod : prod; }
+        }
+        return v;
+    }
+    T operator()(hep::vegas_point<T> const& p) const { return note(p); }
+    T operator()(hep::multi_channel_point<T> const& p) const { return note(p); }
+    T operator()(hep::vegas_point<T> const& p, hep::projector<T>& proj) const { T const v = note(p); proj.add(0, T(0.5), v); return v; }
+    T operator()(hep::multi_channel_point<T> const& p, hep::projector<T>& proj) const { T const v = note(p); proj.add(0, T(0.5), v); return v; }
+};
+
+template <typename T>
+static void weighted_case(report& r, std::function<T(sz)> const& value, sz n, std::string const& id)
+{
+    T const eps = std::numeric_limits<T>::epsilon();
+    for (int kind = 0; kind != 4; ++kind)     // VEGAS / multi-channel, without / with a distribution
+    {
+        sz counter = 0;
+        __float128 exact = 0, mag = 0;
+        weighted_fn<T> fn{&value, &counter, &exact, &mag};
+        vf::script_engine gen;
+        T sum;
+        if (kind < 2)
+        {
+            hep::vegas_pdf<T> pdf(1, 3);
+            pdf.set_bin_left(0, 1, T(1) / T(7)); pdf.set_bin_left(0, 2, T(0.7L));
+            sum = kind == 0 ? hep::vegas_iteration(hep::make_integrand<T>(fn, 1), n, pdf, gen).sum()
+                            : hep::vegas_iteration(hep::make_integrand<T>(fn, 1, hep::make_dist_params<T>(1, T(0), T(1), "d")), n, pdf, gen).sum();
+        }
+        else
+        {
+            vf::pl_map<T> map; map.split = {T(1) / T(3), T(0.7L)}; map.dims = 1;
+            std::vector<T> const w = {T(1) / T(3), T(2) / T(3)};
+            sum = kind == 2 ? hep::multi_channel_iteration(hep::make_multi_channel_integrand<T>(fn, 1, map, 1, 2), n, w, gen).sum()
+                            : hep::multi_channel_iteration(hep::make_multi_channel_integrand<T>(fn, 1, map, 1, 2, hep::make_dist_params<T>(1, T(0), T(1), "d")), n, w, gen).sum();
+        }
+        r.count("values_summed", n);
+        __float128 d = static_cast<__float128>(sum) - exact;
+        if (d < 0) d = -d;
+        if (!(d <= 2 * static_cast<__float128>(eps) * mag))
+        {
+            char const* const names[] = {"vegas", "vegas-with-distribution", "multi_channel", "multi_channel-with-distribution"};
+            r.violate(std::string("accuracy-lost/weighted-values/") + names[kind], id, id + ": " + names[kind] + " sum " + vf::dec(static_cast<long double>(sum))
+                + ", exact sum of the products f x weight " + vf::dec(static_cast<long double>(exact)) + ", error "
+                + vf::dec(static_cast<long double>(d / (static_cast<__float128>(eps) * mag))) + " eps*sum|v| (bound 2)");
+        }
+    }
+}
+
 template <typename T>
 static void part_c(report& r, bool thorough)
 {
@@ -230,6 +297,9 @@ static void part_c(report& r, bool thorough)
         {"tiny/alternating", [=](sz i) { T const sc = std::ldexp(T(1), std::numeric_limits<T>::min_exponent + 3); return (i % 2 ? T(-1) : T(1)) * (T(1) + T(i % 7) * eps) * sc; }},
         // a few values whose squares overflow (the sum of squares is lost, the sum must not be)
         {"few-huge-values", [=](sz i) { return i % 1000 == 7 ? std::ldexp(T(1) + T(i % 3) * eps, std::numeric_limits<T>::max_exponent / 2 + 10) * (i % 2000 == 7 ? T(1) : T(-1)) : T(1) + T(i % 5) * eps; }},
+        // a few non-finite evaluations in between: they are no part of any sum, and the values after them still are
+        {"sparse-non-finite", [=](sz i) { return i % 997 == 5 ? (i % 3 == 0 ? std::numeric_limits<T>::quiet_NaN() : i % 3 == 1 ? std::numeric_limits<T>::infinity() : -std::numeric_limits<T>::infinity())
+            : (i % 2 ? T(-1) : T(1)) * (T(1) + T(i % 7) * eps) + (i < 3 ? T(4096) : T()); }},
         {"mixed-magnitudes", [=](sz i) { return std::ldexp(T(1) + T(vf::splitmix64(i) % 1024) * eps, int(vf::splitmix64(i + 77) % 40) - 20) * ((vf::splitmix64(i + 5) & 1) ? T(1) : T(-1)); }},
     };
     for (auto const& f : fams)
@@ -239,7 +309,7 @@ static void part_c(report& r, bool thorough)
             std::string const id = tn + " family " + f.name + " N=" + std::to_string(n);
             if (!r.want(id)) continue;
             __float128 exact = 0, mag = 0;
-            for (sz i = 0; i != n; ++i) { __float128 const v = f.value(i); exact += v; mag += v < 0 ? -v : v; }
+            for (sz i = 0; i != n; ++i) { T const tv = f.value(i); if (!std::isfinite(tv)) continue; __float128 const v = tv; exact += v; mag += v < 0 ? -v : v; }
             auto const s = run<T>(f.value, n);
             r.eval();
             r.count("values_summed", 2 * n);
@@ -254,6 +324,7 @@ static void part_c(report& r, bool thorough)
                         + vf::dec(static_cast<long double>(d / (static_cast<__float128>(eps) * mag))) + " eps*sum|v| (bound 2)");
             }
             judge_more<T>(r, s, f.value, n, id, id);
+            if (n >= 100 && n <= 100000) weighted_case<T>(r, f.value, n, id);
             r.distinct(vf::hash_str(id));
             if (r.deadline_hit()) return;
         }
